@@ -414,7 +414,16 @@ fn _codegen_callable_closure_body(
                     };
                     match variant_type {
                         MatchResultVariant::Ok => {
-                            ok_binding_variable = Some(match_binding_parameter_name.clone());
+                            // The `Ok` value may be borrowed mutably later on,
+                            // just like the output of an infallible constructor.
+                            let is_borrowed_mutably = call_graph
+                                .edges_directed(variant_index, Direction::Outgoing)
+                                .any(|e| e.weight() == &CallGraphEdgeMetadata::ExclusiveBorrow);
+                            ok_binding_variable = Some(if is_borrowed_mutably {
+                                quote! { mut #match_binding_parameter_name }
+                            } else {
+                                quote! { #match_binding_parameter_name }
+                            });
                             ok_arm = Some(match_arm_body);
                         }
                         MatchResultVariant::Err => {
